@@ -7,8 +7,8 @@ ALL = ["C%02d" % i for i in range(1, 21)]
 # id -> (category, technique, level text, level note, design ref, engine)
 CHECKS = {
     "C01": ("exploration",
-            "bounded exhaustive enumeration of (rule set x configuration x request) through the real request pipeline with a recording mock upstream, against a composition reference model",
-            "Every set of <=2 (thorough <=3) placed rules out of 34 rule texts x 3 placements, and 25 small sets x 5 blocking modes x 4 protection states x filtering on/off x 4 client kinds x 9 blocked-service settings (global and per-client lists, paused, not paused or empty, alone and together); each with 7-9 names x 5 qtypes x 2 client addresses run through HandleBefore+handleDNSRequest of a real server (real filtering engine, real client storage, virtual clock). Oracle: blocked => mode's synthetic response and empty upstream log; otherwise exactly one upstream call and the upstream records and question intact.",
+            "bounded exhaustive enumeration of (rule set x configuration x request) through the real request pipeline with a recording mock upstream, against a composition reference model; plus enumeration of all admin-operation histories up to a depth on the full assembly",
+            "Every set of <=2 (thorough <=3) placed rules out of 34 rule texts x 3 placements, and 25 small sets x 5 blocking modes x 4 protection states x filtering on/off x 4 client kinds x 9 blocked-service settings (global and per-client lists, paused, not paused or empty, alone and together); each with 7-9 names x 5 qtypes x 2 client addresses run through HandleBefore+handleDNSRequest of a real server (real filtering engine, real client storage, virtual clock). Oracle: blocked => mode's synthetic response and empty upstream log; otherwise exactly one upstream call and the upstream records and question intact. Part 2 (second binary, the full assembly of C05 through the real admin handlers): every history of <=4 (thorough 6) list life-cycle operations and of <=4 (thorough 5) protection operations (timed pause, off, on, on/off through dns_config, clock advance); after each step a name of the block list is blocked exactly when its list is present and enabled / protection is on.",
             "single-rule matching delegated to urlfilter's Match; composition, gates and response table are modelled independently; $dnsrewrite, safe browsing/parental/safe search excluded.",
             "DESIGN.md §4 C01", "E1-stateless"),
     "C02": ("exploration",
@@ -28,7 +28,7 @@ CHECKS = {
             "DESIGN.md §4 C04", "E1-BFS"),
     "C05": ("model_checking",
             "stateless preemption-bounded exhaustive exploration of interleavings under a cooperative scheduler hooked into sync/atomic (E2), plus a free-running race-detector pass over the same exhaustively enumerated scenario matrix (E4)",
-            "Scenario matrix: 4 request bodies x 33 admin/background bodies (with scheduling points after lock releases), every background body x every admin body, three-party scenarios around the list refresh (thorough: + request x background x admin triples), every history of <=4 (thorough 5) protection operations (timed pause, off, on, on/off through dns_config, clock advance) with the blocking of a listed name judged after each step, a deterministic probe that what the client storage hands out is not changed by later updates, and a phase that queues several set_rules calls behind a held engine-rebuild worker and demands the last one's engine, on a full assembly wired as in package home (server, filter with file lists, client storage, query log, statistics on bbolt). E2 owns every Mutex/RWMutex(writer preference)/WaitGroup/Once/atomic operation of the rewritten AGH packages and bbolt and explores all schedules with <=1 (quick) / <=2 (thorough) preemptions: no panic, deadlock or livelock, well-formed response, operations succeed. E4 runs every scenario in both start orders with staggered starts under -race.",
+            "Scenario matrix: 4 request bodies x 33 admin/background bodies (with scheduling points after lock releases), every background body x every admin body, three-party scenarios around the list refresh (thorough: + request x background x admin triples), a deterministic probe that what the client storage hands out is not changed by later updates, and a phase that queues several set_rules calls behind a held engine-rebuild worker and demands the last one's engine (the sequential history phases on the same assembly belong to C01), on a full assembly wired as in package home (server, filter with file lists, client storage, query log, statistics on bbolt). E2 owns every Mutex/RWMutex(writer preference)/WaitGroup/Once/atomic operation of the rewritten AGH packages and bbolt and explores all schedules with <=1 (quick) / <=2 (thorough) preemptions: no panic, deadlock or livelock, well-formed response, operations succeed. E4 runs every scenario in both start orders with staggered starts under -race.",
             "data races are decided by the race detector's happens-before analysis of observed free runs (order-dependent), not by schedule enumeration; goroutines the code spawns itself are replaced by explicit bodies; DHCP lease operations and restart-type DNS settings are not in the matrix.",
             "DESIGN.md §2.3, §2.4, §4 C05", "E2+E4"),
     "C06": ("exploration",
